@@ -16,7 +16,7 @@ func extraGen(kind string, seed int64, prop string, idx int) (*Case, bool) {
 	case "diff:c06", "diff:c15", "diff:c16", "diff:c16deco", "diff:c17", "diff:c15big", "diff:c16big", "diff:c17big", "diff:c16graph", "diff:c17graph", "diff:c06graph", "diff:c16defer":
 		r := caseRand(seed, kind, idx)
 		prof := map[string]string{"diff:c06": "rejects", "diff:c15": "enc", "diff:c16": "order", "diff:c16deco": "orderdeco", "diff:c17": "dry",
-			"diff:c15big": "large", "diff:c16big": "large", "diff:c17big": "large", "diff:c16graph": "largegraph", "diff:c17graph": "largegraph", "diff:c06graph": "largegraph", "diff:c16defer": "orderdefer"}[kind]
+			"diff:c15big": "largeenc", "diff:c16big": "large", "diff:c17big": "large", "diff:c16graph": "largegraph", "diff:c17graph": "largegraph", "diff:c06graph": "largegraph", "diff:c16defer": "orderdefer"}[kind]
 		h := genHistory(r, profileByName(prof))
 		return &Case{Kind: kind, H: h, X: map[string]interface{}{"tseed": r.Int63n(1 << 40)}}, true
 	case "diff:c16block":
